@@ -2,7 +2,8 @@
 #define VERIF_SUNDIALS_NVECTOR_H
 #include <string.h>
 #include "sundials_types.h"
-struct _verif_NVectorContent { sunindextype length; booleantype own_data; realtype *data; };
+class SUNCudaExecPolicy;
+struct _verif_NVectorContent { sunindextype length; booleantype own_data; realtype *data; SUNCudaExecPolicy *stream_exec_policy; };
 struct _generic_N_Vector { struct _verif_NVectorContent *content; SUNContext sunctx; };
 typedef struct _generic_N_Vector *N_Vector;
 static inline realtype *N_VGetArrayPointer(N_Vector v) { return v->content->data; }
